@@ -154,6 +154,10 @@ func main() {
 			fmt.Fprintln(os.Stderr, err)
 			os.Exit(2)
 		}
+		if err := genDecls(prog, filepath.Join(filepath.Dir(*genA), "decls.json")); err != nil {
+			fmt.Fprintln(os.Stderr, err)
+			os.Exit(2)
+		}
 		return
 	}
 	for _, r := range prog.Renames {
